@@ -115,7 +115,6 @@ func VerifC09ExecuteClaim() {
 	_, stillParked := e.ck.GetPendingExecuteClaim(e.ctx, 1)
 	if err != nil {
 		rt.Cover("failed")
-		rt.Assert(kind != 0, "a parked bridge-call result for an existing call executes")
 		rt.Assert(e.ms.Equal(before), "a failed precompile call leaves the native state exactly as it was")
 		rt.Assert(stillParked == (kind == 1), "a claim whose execution failed stays parked")
 		rt.Assert(len(e.sdb.Logs) == 0, "a failed call leaves no log")
